@@ -18,6 +18,21 @@ names = args or sorted(os.listdir(os.path.join(V, "seeded")))
 props = [c["property_id"] for c in json.load(open(os.path.join(V, "MANIFEST.json")))["checks"]]
 
 
+import re
+UNIT_FILES = {}
+_reg = json.load(open(os.path.join(V, "contracts/registry.json")))
+for _u, _cfg in _reg["units"].items():
+    _t = open(os.path.join(V, _cfg["template"])).read()
+    UNIT_FILES[_u] = set(re.findall(r"^//@(?:extract|extract-type|extract-const|expand-macro|extract-macro)\s+(\S+)", _t, re.M))
+
+
+def affected_units(patch_text):
+    """a unit's generated file depends only on /verif/contracts and on the source files its template extracts from: a change that
+    touches none of them leaves the unit's verdict as on the unchanged tree (which passes), so only the others are re-verified"""
+    files = set(re.findall(r"^\+\+\+ b/(\S+)", patch_text, re.M))
+    return sorted(u for u, fs in UNIT_FILES.items() if fs & files)
+
+
 def one(name):
     d = os.path.join(V, "seeded", name)
     if not os.path.exists(os.path.join(d, "patch.diff")):
@@ -28,7 +43,8 @@ def one(name):
         p = subprocess.run(["patch", "-p1", "--fuzz=3", "-s", "-i", os.path.join(d, "patch.diff")], cwd=s + "/repo", capture_output=True, text=True)
         if p.returncode != 0:
             return name, None, None, "PATCH DOES NOT APPLY: " + (p.stdout + p.stderr)[:300]
-        env = dict(os.environ, VERIF_REPO=s + "/repo", VERIF_BUILD=s + "/build", VERIF_EVIDENCE=s + "/evidence", VERIF_REPLAY_OUT=s + "/replay", VERIF_NO_DRIVERS="1")
+        au = affected_units(open(os.path.join(d, "patch.diff")).read())
+        env = dict(os.environ, VERIF_REPO=s + "/repo", VERIF_BUILD=s + "/build", VERIF_EVIDENCE=s + "/evidence", VERIF_REPLAY_OUT=s + "/replay", VERIF_NO_DRIVERS="1", VERIF_ONLY_UNITS=",".join(au) or "none")
         vio, und, details = [], [], {}
         r = subprocess.run([os.path.join(V, "bin/check"), "--all"], env=env, capture_output=True, text=True, cwd=V)
         cur = []
